@@ -669,6 +669,12 @@ func (r *Run) reopen(op *Op) {
 			}
 		}
 	}
+	if op.Peek > 0 && r.H.AfterStep != nil {
+		r.peekReadonly(op)
+		if r.stopped() {
+			return
+		}
+	}
 	if err := r.open(*op.Open); err != nil {
 		r.logf("reopen %+v err=%v", *op.Open, err)
 		r.unexpected("Open(reopen)", err)
@@ -678,6 +684,50 @@ func (r *Run) reopen(op *Op) {
 	r.probe("reopen")
 	if r.H.OnReopened != nil {
 		r.H.OnReopened(r, op)
+	}
+}
+
+// peekReadonly: while the log is closed (index files possibly lost, offline tools done), a
+// read-only handle is opened with the index options of the run and the property's per-step
+// oracle runs against it: a read-only handle answers like a read-write one. Its first call
+// is Stat (Peek 1) or a scan (Peek 2), whatever the oracle starts with otherwise.
+func (r *Run) peekReadonly(op *Op) {
+	o := OpenOpts{Rollover: op.Open.Rollover, Readonly: true, NewV: op.Open.NewV, Keep: op.Open.Keep}
+	if err := r.open(o); err != nil {
+		r.logf("peek read-only err=%v", err)
+		r.unexpected("Open(read-only)", err)
+		return
+	}
+	r.logf("peek read-only %d", op.Peek)
+	r.probe("readonly_peek")
+	switch op.Peek {
+	case 1:
+		var st klevdb.Stats
+		err := guard(func() error {
+			var e error
+			st, e = r.L.Stat()
+			return e
+		})
+		if err != nil {
+			r.violate("Stat(read-only)|error|"+errKind(err), "first call of a read-only handle: Stat failed: %v", err)
+		} else if st.Messages != len(r.M.Live) {
+			r.violate("Stat(read-only)|messages", "first call of a read-only handle: Stat counts %d messages, live %d", st.Messages, len(r.M.Live))
+		}
+	case 2:
+		got, _, diag := r.scan(int64(1 + r.Obs.Intn(9)))
+		if diag != "" {
+			r.violate("scan(read-only)|error|"+scanDiagKind(diag), "first calls of a read-only handle: %s", diag)
+		} else if d := diffLive(got, r.M.Live); d != "" {
+			r.violate("scan(read-only)|"+diffKind(d), "read-only handle: %s", d)
+		}
+	}
+	if !r.stopped() {
+		r.H.AfterStep(r, op)
+	}
+	l := r.L
+	r.L = nil
+	if err := guard(func() error { return l.Close() }); err != nil && !r.stopped() {
+		r.unexpected("Close(read-only)", err)
 	}
 }
 
